@@ -575,6 +575,9 @@ func (p *Program) judge(fr *FuncResult, model map[string]string, oc *outcome, wo
 	for _, d := range ex.Defs {
 		CollectSyms(d.T, declared)
 	}
+	for _, pv := range ex.ParamVals {
+		collectValSyms(pv, declared)
+	}
 	for _, n := range names {
 		s, ok := declared[n]
 		if !ok {
@@ -601,6 +604,25 @@ func (p *Program) judge(fr *FuncResult, model map[string]string, oc *outcome, wo
 				if _, isRef := declared[ref]; isRef {
 					pins = append(pins, Eq(Select(Sym("heap0", ArraySort(IntSort, IntSort)), Sym(ref, IntSort)), IntBig(v)))
 				}
+			}
+		}
+	}
+	// slice contents: pinned through the element aliases (name!e<i> is a definition select(data, i))
+	defByName := map[string]Def{}
+	for _, d := range ex.Defs {
+		defByName[d.Name] = d
+	}
+	for _, n := range names {
+		d, ok := defByName[n]
+		if !ok || !strings.Contains(n, "!e") || strings.HasSuffix(n, "!val") || strings.HasSuffix(n, "!words") {
+			continue
+		}
+		if v, ok := ModelInt(model[n]); ok {
+			switch d.S.K {
+			case SBV:
+				pins = append(pins, Eq(d.T, BVC(v, d.S.W)))
+			case SInt:
+				pins = append(pins, Eq(d.T, IntBig(v)))
 			}
 		}
 	}
@@ -647,6 +669,17 @@ func (p *Program) judge(fr *FuncResult, model map[string]string, oc *outcome, wo
 			return
 		}
 		entryEnv.bindLets(c, false)
+		// a candidate input outside the precondition says nothing about the contract
+		var preT []*Term
+		for _, r := range c.Requires {
+			preT = append(preT, entryEnv.termBool(r.Expr))
+		}
+		if len(preT) > 0 {
+			if r := ask("pre", And(preT...)); r == "unsat" {
+				verdict = "candidate input does not satisfy the precondition (not judged)"
+				return
+			}
+		}
 		// the contract's assumed lemma instances hold for the concrete input too
 		for _, a := range c.Assume {
 			pins = append(pins, entryEnv.termBool(a.Expr))
@@ -717,7 +750,7 @@ func (p *Program) judge(fr *FuncResult, model map[string]string, oc *outcome, wo
 			ex.resultMode = false
 			if iv, isI := rv.(IfaceV); isI && !oc.Results[i].Nil {
 				// observed dynamic type is known: make the result a concrete interface value
-				if ct := ob.lookupObservedType(oc.Results[i].Type); ct != nil {
+				if ct := ob.lookupObservedType(oc.Results[i].Type); ct != nil && ob.constructible(ct) {
 					ex.resultMode = true
 					pl := ex.symVal(st, fmt.Sprintf("obsP%d", i), ct, 1)
 					ex.resultMode = false
@@ -736,6 +769,11 @@ func (p *Program) judge(fr *FuncResult, model map[string]string, oc *outcome, wo
 			vars[nm] = rv
 			if results.Len() == 1 {
 				vars["result"] = rv
+			}
+			if rn := results.At(i).Name(); rn != "" && rn != "_" {
+				if _, clash := vars[rn]; !clash {
+					vars[rn] = rv
+				}
 			}
 		}
 		if ob.err != "" {
@@ -828,7 +866,8 @@ func (ob *obsBinder) bind(v Val, o obsVal, t types.Type) {
 		}
 		ct := ob.lookupObservedType(o.Type)
 		if ct == nil {
-			ob.err = "observed dynamic type " + o.Type + " unknown"
+			// a dynamic type outside the loaded universe (e.g. *errors.errorString): only non-nil-ness is known
+			ob.facts = append(ob.facts, Neq(x.Kind, IntC(0)))
 			return
 		}
 		ob.facts = append(ob.facts, Eq(x.Kind, IntC(int64(ob.p.TypeTag(ct)))))
@@ -923,3 +962,47 @@ func (ob *obsBinder) lookupObservedType(name string) types.Type {
 	return t
 }
 
+
+// constructible: can a payload of this dynamic type be bound from an observation (numeric values, small structs)
+func (ob *obsBinder) constructible(t types.Type) bool {
+	if _, _, ok := intInfo(t); ok {
+		return true
+	}
+	if isBool(t) {
+		return true
+	}
+	if st, ok := t.Underlying().(*types.Struct); ok {
+		return st.NumFields() <= 2
+	}
+	return false
+}
+
+func collectValSyms(v Val, out map[string]Sort) {
+	switch x := v.(type) {
+	case Scalar:
+		CollectSyms(x.T, out)
+	case StructV:
+		for _, f := range x.F {
+			collectValSyms(f, out)
+		}
+	case SliceV:
+		if x.Region != nil {
+			CollectSyms(x.Len, out)
+			CollectSyms(x.Cap, out)
+			CollectSyms(x.Off, out)
+		}
+	case PtrV:
+		if x.Ref != nil {
+			CollectSyms(x.Ref, out)
+		}
+	case IfaceV:
+		if x.Kind != nil {
+			CollectSyms(x.Kind, out)
+		}
+		if x.Sym != nil {
+			for _, p := range x.Sym.Payloads {
+				collectValSyms(p, out)
+			}
+		}
+	}
+}
